@@ -234,36 +234,38 @@ def run_task(task):
     I = lpchecks.shape_from(task['shape'])
     flags = set(task['flags'])
 
-    def body():
-        e = S.engine()
-        numerics = None
-        if task.get('seq'):
-            # load-balancing runs: quotas / targets in 0..3 so that code converting a variable value to a
-            # Python int enumerates finitely many values
-            J0, dom0, free0 = e2.sym_numerics(I)
-            numerics = (J0, dom0 + [v <= 3 for v in free0], free0)
-        run = e2.run_e2(I, flags, [(c_, list(a_)) for c_, a_ in task.get('seq', [])], hook_factory=values_hook, clock=True,
-                        numerics=numerics)
-        m = run.solver.model
-        x = {}
-        for row in m.pairs:
-            ts = []
-            for pr in row:
-                v = pr.lp_var.varValue
-                t = S.term_of(v) if v is not None else z3.IntVal(0)
-                x[(pr.studentID, pr.projectID)] = t
-                ts.append(t)
-            if ts:
-                e.assume(z3.Sum(ts) <= 1)
-        e.notes['run'] = run
-        e.notes['x'] = x
-        t1 = run.solver.get_results_short()
-        t2 = run.solver.get_results_long()
-        t3 = run.solver.get_results()
-        return t1, t2, t3
+    def make_body(conc):
+      def body():
+          e = S.engine()
+          numerics = conc
+          if task.get('seq') and conc is None:
+              # load-balancing runs: quotas / targets in 0..3 so that code converting a variable value to a
+              # Python int enumerates finitely many values
+              J0, dom0, free0 = e2.sym_numerics(I)
+              numerics = (J0, dom0 + [v <= 3 for v in free0], free0)
+          run = e2.run_e2(I, flags, [(c_, list(a_)) for c_, a_ in task.get('seq', [])], hook_factory=values_hook, clock=True,
+                          numerics=numerics)
+          m = run.solver.model
+          x = {}
+          for row in m.pairs:
+              ts = []
+              for pr in row:
+                  v = pr.lp_var.varValue
+                  t = S.term_of(v) if v is not None else z3.IntVal(0)
+                  x[(pr.studentID, pr.projectID)] = t
+                  ts.append(t)
+              if ts:
+                  e.assume(z3.Sum(ts) <= 1)
+          e.notes['run'] = run
+          e.notes['x'] = x
+          t1 = run.solver.get_results_short()
+          t2 = run.solver.get_results_long()
+          t3 = run.solver.get_results()
+          return t1, t2, t3
+      return body
 
-    E = S.Engine(max_paths=40000, timeout=1500)
-    paths = E.explore(body)
+    E, paths = e2.explore_or_degrade(lambda: S.Engine(max_paths=40000, timeout=300 if len(task.get('seq', [])) == 0 else 420),
+                                     make_body, I, res['controls'])
     res['paths'] = len(paths)
     res['queries'] += E.stats['solver_queries']
     res['solver_time'] += E.stats['solver_time']
